@@ -3,24 +3,25 @@
     Well-formedness (SimpProofs.wf, fragments 1-3) is used for one thing only: on well-formed trees whose identifier predicate
     determines the is_term flag, == (expr_eqb, which ignores the signedness tag of constants and is_term) is Leibniz equality. *)
 From Coq Require Import ZArith List Bool String Lia.
-From Mx Require Import Expr ExprProofs Simp SimpProofs.
+From Mx Require Import Expr ExprProofs Simp ComposeProofs SimpProofs.
 Import ListNotations.
 Open Scope Z_scope.
 
 Section Idem.
+  Variable ac : bool.
   Variable IdQ : string -> Z -> bool -> bool -> bool.
   Hypothesis IdQ_det : forall n w r t t', IdQ n w r t = true -> IdQ n w r t' = true -> t = t'.
-  Notation wfq := (wf false IdQ).
+  Notation wfq := (wf ac IdQ).
   Let rho0 : string -> Z := fun _ => 0.
   Let mu0 : Z -> Z := fun _ => 0.
   Let iota0 : string -> list Z -> Z := fun _ _ => 0.
-  Notation goodq := (good false IdQ rho0 mu0 iota0).
+  Notation goodq := (good ac IdQ rho0 mu0 iota0).
 
   (** == is equality on well-formed trees *)
   Lemma wf_eqb_eq : forall x y, wfq x = true -> wfq y = true -> expr_eqb x y = true -> x = y.
   Proof.
     induction x using expr_ind'; intros y Wx Wy E; destruct y;
-      try (pose proof (eqb_diff _ _ E) as D; simpl in D; contradiction); try (simpl in Wx; discriminate).
+      try (pose proof (eqb_diff _ _ E) as D; simpl in D; contradiction); try (simpl in Wx; discriminate); try (simpl in Wy; discriminate).
     - rewrite eqb_int in E. apply andb_true_iff in E as [E1 E2]. apply Z.eqb_eq in E1, E2. subst.
       simpl in Wx, Wy. destruct sg, sg0; try discriminate; reflexivity.
     - rewrite eqb_id in E. apply andb_true_iff in E as [E E3]. apply andb_true_iff in E as [E1 E2].
@@ -42,6 +43,12 @@ Section Idem.
     - rewrite eqb_slice in E. apply andb_true_iff in E as [E E3]. apply andb_true_iff in E as [E1 E2]. apply Z.eqb_eq in E2, E3. subst.
       simpl in Wx, Wy. repeat (apply andb_true_iff in Wx as [Wx ?]). repeat (apply andb_true_iff in Wy as [Wy ?]).
       rewrite (IHx y); auto.
+    - rewrite eqb_compose in E. destruct (wf_compose_inv ac IdQ _ Wx) as (_ & _ & Hx & _). destruct (wf_compose_inv ac IdQ _ Wy) as (_ & _ & Hy & _). f_equal.
+      clear Wx Wy. revert args0 Hy E. induction H as [|s l Hs Hl IH]; intros [|t l'] Hy E; simpl in E; try discriminate; [reflexivity|].
+      apply andb_true_iff in E as [Est Er]. unfold slot_eqb in Est. apply andb_true_iff in Est as [Est E3]. apply andb_true_iff in Est as [E1 E2]. apply Z.eqb_eq in E2, E3.
+      assert (Q : slot_e s = slot_e t) by (apply Hs; [apply (Hx s); left; reflexivity | apply (Hy t); left; reflexivity | exact E1]).
+      rewrite (IH (fun u Iu => Hx u (or_intror Iu)) l' (fun u Iu => Hy u (or_intror Iu)) Er). f_equal.
+      destruct s as [[es ls] hs], t as [[et lt] ht]. unfold slot_e, slot_lo, slot_hi in *. cbn [fst snd] in *. subst. reflexivity.
   Qed.
 
   (** deep normal forms *)
@@ -52,6 +59,7 @@ Section Idem.
     | EOp _ args => (fix all (l : list expr) : Prop := match l with [] => True | x :: r => DF x /\ all r end) args
     | ECond c a b => DF c /\ DF a /\ DF b
     | ESlice a _ _ => DF a
+    | ECompose slots => (fix alls (l : list slot) : Prop := match l with [] => True | x :: r => DF (slot_e x) /\ alls r end) slots
     | _ => True
     end.
   Definition kids (e : expr) : Prop :=
@@ -60,12 +68,15 @@ Section Idem.
     | EOp _ args => Forall DF args
     | ECond c a b => DF c /\ DF a /\ DF b
     | ESlice a _ _ => DF a
+    | ECompose slots => Forall (fun s => DF (slot_e s)) slots
     | _ => True
     end.
   Lemma DF_all l : (fix all (l : list expr) : Prop := match l with [] => True | x :: r => DF x /\ all r end) l <-> Forall DF l.
   Proof. induction l as [|a l IH]; split; intros H; try constructor; try exact I; try (destruct H as [A B]; tauto); inversion H; subst; tauto. Qed.
+  Lemma DF_alls l : (fix alls (l : list slot) : Prop := match l with [] => True | x :: r => DF (slot_e x) /\ alls r end) l <-> Forall (fun s => DF (slot_e s)) l.
+  Proof. induction l as [|a l IH]; split; intros H; try constructor; try exact I; try (destruct H as [A B]; tauto); inversion H; subst; tauto. Qed.
   Lemma DF_unfold e : DF e <-> simp1 e = Ok e /\ kids e.
-  Proof. destruct e; simpl; try tauto. rewrite DF_all. tauto. Qed.
+  Proof. destruct e; simpl; try tauto; [rewrite DF_all | rewrite DF_alls]; tauto. Qed.
 
   (** simplifying a deep normal form returns it *)
   Lemma visit_DF_id cb : (forall x, simp1 x = Ok x -> cb x = Ok x) -> forall e, wfq e = true -> DF e -> visitM cb e = Ok e.
@@ -84,6 +95,11 @@ Section Idem.
       simpl. rewrite (IHe1 W K1). cbn [bind]. rewrite (IHe2 H1 K2). cbn [bind]. rewrite (IHe3 H0 K3). cbn [bind].
       rewrite !eqb_refl. cbn [andb]. apply Hcb. exact S.
     - simpl in W. repeat (apply andb_true_iff in W as [W ?]). simpl. rewrite (IHe W K). cbn [bind]. rewrite eqb_refl. apply Hcb. exact S.
+    - destruct (wf_compose_inv ac IdQ _ W) as (_ & _ & Hw & _). simpl.
+      assert (M : mapM (fun s => do x <- visitM cb (slot_e s); Ok (x, slot_lo s, slot_hi s)) args = Ok args).
+      { clear S W. revert K Hw. induction H as [|s l Hs Hl IH]; intros K Hw; [reflexivity|]. inversion K as [|? ? Ds Dl]; subst. simpl. rewrite (Hs (proj1 (Hw s (or_introl eq_refl))) Ds). cbn [bind].
+        rewrite (IH Dl (fun u Iu => Hw u (or_intror Iu))). cbn [bind]. destruct s as [[es ls] hs]. reflexivity. }
+      rewrite M. cbn [bind]. rewrite (all2_refl _ args) by (apply Forall_forall; intros s _; rewrite eqb_refl, !Z.eqb_refl; reflexivity). apply Hcb. exact S.
   Qed.
 
   Lemma loop_DF_id rec n x : simp1 x = Ok x -> simp_loop rec (S n) x = Ok x.
@@ -109,14 +125,14 @@ Section Idem.
         simpl in HV. destruct s as [u|].
         + destruct (visitM cb u) as [u'| |] eqn:Eu; try discriminate. cbn [bind] in HV.
           destruct (visitM cb e) as [a'| |] eqn:Ea; try discriminate. cbn [bind] in HV.
-          pose proof (visit_good false IdQ rho0 mu0 iota0 cb cb_good cb_int u u' Ws Eu) as (Wu' & _). pose proof (visit_good false IdQ rho0 mu0 iota0 cb cb_good cb_int e a' Wa Ea) as (Wa' & _).
+          pose proof (visit_good ac IdQ rho0 mu0 iota0 cb cb_good cb_int u u' Ws Eu) as (Wu' & _). pose proof (visit_good ac IdQ rho0 mu0 iota0 cb cb_good cb_int e a' Wa Ea) as (Wa' & _).
           assert (X : (if opt_eqb expr_eqb (Some u') (Some u) && expr_eqb a' e then EMem e w (Some u) else EMem a' w (Some u')) = EMem a' w (Some u')).
           { destruct (opt_eqb expr_eqb (Some u') (Some u) && expr_eqb a' e) eqn:Q; [|reflexivity]. apply andb_true_iff in Q as [Q1 Q2]. simpl in Q1.
             rewrite (wf_eqb_eq u' u Wu' Ws Q1), (wf_eqb_eq a' e Wa' Wa Q2). reflexivity. }
           rewrite X in HV. apply (cb_DF (EMem a' w (Some u')) rr); [simpl; rewrite Wa', Ww, Wu'; reflexivity | | exact HV].
           cbn [kids]. split; [apply (IHe a' Wa ltac:(first [reflexivity | exact Ea])) | apply (H u' Ws ltac:(first [reflexivity | exact Eu]))].
         + destruct (visitM cb e) as [a'| |] eqn:Ea; try discriminate. cbn [bind] in HV.
-          pose proof (visit_good false IdQ rho0 mu0 iota0 cb cb_good cb_int e a' Wa Ea) as (Wa' & _).
+          pose proof (visit_good ac IdQ rho0 mu0 iota0 cb cb_good cb_int e a' Wa Ea) as (Wa' & _).
           assert (X : (if opt_eqb expr_eqb None None && expr_eqb a' e then EMem e w None else EMem a' w None) = EMem a' w None).
           { destruct (opt_eqb expr_eqb None None && expr_eqb a' e) eqn:Q; [|reflexivity]. apply andb_true_iff in Q as [_ Q2]. rewrite (wf_eqb_eq a' e Wa' Wa Q2). reflexivity. }
           rewrite X in HV. apply (cb_DF (EMem a' w None) rr); [simpl; rewrite Wa', Ww; reflexivity | | exact HV].
@@ -125,8 +141,8 @@ Section Idem.
         pose proof W as W'. simpl in W'. apply andb_true_iff in W' as [Wl O]. apply forallb_Forall in Wl.
         simpl in HV. destruct (mapM (visitM cb) args) as [args'| |] eqn:Em; try discriminate. cbn [bind] in HV.
         assert (F2 : Forall2 goodq args args').
-        { apply (mapM_good false IdQ rho0 mu0 iota0 (visitM cb)); [|exact Wl | exact Em]. apply Forall_forall. intros a _ a' Wa Ea. apply (visit_good false IdQ rho0 mu0 iota0 cb cb_good cb_int); assumption. }
-        pose proof (node_good false IdQ rho0 mu0 iota0 op args args' W F2) as (Wn & _).
+        { apply (mapM_good ac IdQ rho0 mu0 iota0 (visitM cb)); [|exact Wl | exact Em]. apply Forall_forall. intros a _ a' Wa Ea. apply (visit_good ac IdQ rho0 mu0 iota0 cb cb_good cb_int); assumption. }
+        pose proof (node_good ac IdQ rho0 mu0 iota0 op args args' W F2) as (Wn & _).
         assert (FD : Forall DF args').
         { clear - H Wl Em. revert args' Em. induction H as [|a l Ha Hl IH]; intros args' Em; simpl in Em; [inversion Em; constructor|].
           inversion Wl as [|? ? Wa Wr]; subst. destruct (visitM cb a) as [a'| |] eqn:Ea; try discriminate. cbn [bind] in Em.
@@ -142,21 +158,43 @@ Section Idem.
         destruct (visitM cb e1) as [c'| |] eqn:E1; try discriminate. cbn [bind] in HV.
         destruct (visitM cb e2) as [a'| |] eqn:E2; try discriminate. cbn [bind] in HV.
         destruct (visitM cb e3) as [b'| |] eqn:E3; try discriminate. cbn [bind] in HV.
-        destruct (visit_good false IdQ rho0 mu0 iota0 cb cb_good cb_int e1 c' W' E1) as (Wc' & Sc' & _). destruct (visit_good false IdQ rho0 mu0 iota0 cb cb_good cb_int e2 a' Wa E2) as (Wa' & Sa' & _).
-        destruct (visit_good false IdQ rho0 mu0 iota0 cb cb_good cb_int e3 b' Wb E3) as (Wb' & Sb' & _).
+        destruct (visit_good ac IdQ rho0 mu0 iota0 cb cb_good cb_int e1 c' W' E1) as (Wc' & Sc' & _). destruct (visit_good ac IdQ rho0 mu0 iota0 cb cb_good cb_int e2 a' Wa E2) as (Wa' & Sa' & _).
+        destruct (visit_good ac IdQ rho0 mu0 iota0 cb cb_good cb_int e3 b' Wb E3) as (Wb' & Sb' & _).
         assert (X : (if expr_eqb c' e1 && expr_eqb a' e2 && expr_eqb b' e3 then ECond e1 e2 e3 else ECond c' a' b') = ECond c' a' b').
         { destruct (expr_eqb c' e1 && expr_eqb a' e2 && expr_eqb b' e3) eqn:Q; [|reflexivity]. apply andb_true_iff in Q as [Q Q3]. apply andb_true_iff in Q as [Q1 Q2].
           rewrite (wf_eqb_eq c' e1 Wc' W' Q1), (wf_eqb_eq a' e2 Wa' Wa Q2), (wf_eqb_eq b' e3 Wb' Wb Q3). reflexivity. }
         rewrite X in HV. apply (cb_DF (ECond c' a' b') rr); [simpl; rewrite Wc', Wa', Wb', Sa', Sb'; cbn [andb]; exact Sab | | exact HV].
         cbn [kids]. repeat split; [apply (IHe1 c' W' ltac:(first [reflexivity | exact E1])) | apply (IHe2 a' Wa ltac:(first [reflexivity | exact E2])) | apply (IHe3 b' Wb ltac:(first [reflexivity | exact E3]))].
       - (* ESlice *)
-        destruct (wf_slice_inv false IdQ _ _ _ W) as (Wa & L0 & Llh & Lhs). simpl in HV.
+        destruct (wf_slice_inv ac IdQ _ _ _ W) as (Wa & L0 & Llh & Lhs). simpl in HV.
         destruct (visitM cb e) as [a'| |] eqn:Ea; try discriminate. cbn [bind] in HV.
-        destruct (visit_good false IdQ rho0 mu0 iota0 cb cb_good cb_int e a' Wa Ea) as (Wa' & Sa' & _).
+        destruct (visit_good ac IdQ rho0 mu0 iota0 cb cb_good cb_int e a' Wa Ea) as (Wa' & Sa' & _).
         assert (X : (if expr_eqb a' e then ESlice e lo hi else ESlice a' lo hi) = ESlice a' lo hi).
         { destruct (expr_eqb a' e) eqn:Q; [|reflexivity]. rewrite (wf_eqb_eq a' e Wa' Wa Q). reflexivity. }
         rewrite X in HV. apply (cb_DF (ESlice a' lo hi) rr); [| cbn [kids]; apply (IHe a' Wa ltac:(first [reflexivity | exact Ea])) | exact HV].
         simpl. rewrite Wa', Sa'. cbn [andb]. apply andb_true_iff. split; [apply andb_true_iff; split; [apply Z.leb_le; lia | apply Z.ltb_lt; lia] | apply Z.leb_le; lia].
+      - (* ECompose *)
+        destruct (wf_compose_inv ac IdQ _ W) as (_ & _ & Hw & _).
+        simpl in HV. destruct (mapM (fun s => do x <- visitM cb (slot_e s); Ok (x, slot_lo s, slot_hi s)) args) as [args'| |] eqn:Em; try discriminate. cbn [bind] in HV.
+        assert (F2 : Forall2 (slot_rel ac IdQ rho0 mu0 iota0) args args' /\ Forall (fun s => DF (slot_e s)) args').
+        { clear HV W. revert args' Em. induction H as [|s l Hs0 Hl IH]; intros args' Em; simpl in Em; [inversion Em; split; constructor|].
+          destruct (visitM cb (slot_e s)) as [x| |] eqn:Ex0; try discriminate. cbn [bind] in Em.
+          destruct (mapM (fun s => do x <- visitM cb (slot_e s); Ok (x, slot_lo s, slot_hi s)) l) as [l'| |] eqn:El; try discriminate. cbn [bind] in Em. inversion Em; subst.
+          destruct (IH (fun u Iu => Hw u (or_intror Iu)) l' eq_refl) as [I1 I2]. pose proof (proj1 (Hw s (or_introl eq_refl))) as Ws.
+          split; constructor; try assumption.
+          - unfold slot_rel, slot_e at 2, slot_lo at 1, slot_hi at 1. cbn [fst snd].
+            split; [apply (visit_good ac IdQ rho0 mu0 iota0 cb cb_good cb_int (slot_e s) x Ws); first [reflexivity | exact Ex0]|]. split; [reflexivity|]. split; [reflexivity|].
+            intros Ii. destruct (slot_e s) as [sg w v| | | | | | |]; try discriminate. simpl in Ex0. apply (cb_int _ _ _ _ Ex0).
+          - unfold slot_e at 1. cbn [fst snd]. apply (Hs0 x Ws); first [reflexivity | exact Ex0]. }
+        destruct F2 as [F2 FD]. pose proof (compose_node_good ac IdQ rho0 mu0 iota0 args args' W F2) as (Wn & _).
+        assert (X : (if all2 (fun s s' => expr_eqb (slot_e s) (slot_e s') && (slot_lo s =? slot_lo s') && (slot_hi s =? slot_hi s')) args args' then ECompose args else ECompose args') = ECompose args').
+        { destruct (all2 _ args args') eqn:Q; [|reflexivity]. f_equal. destruct (wf_compose_inv ac IdQ _ Wn) as (_ & _ & Hw' & _). clear - Q Hw Hw' IdQ_det.
+          revert args' Q Hw'. induction args as [|s l IH]; intros [|t l'] Q Hw'; simpl in Q; try discriminate; [reflexivity|].
+          apply andb_true_iff in Q as [Qs Qr]. apply andb_true_iff in Qs as [Qs Q3]. apply andb_true_iff in Qs as [Q1 Q2]. apply Z.eqb_eq in Q2, Q3.
+          assert (E1 : slot_e s = slot_e t) by (apply wf_eqb_eq; [apply (Hw s); left; reflexivity | apply (Hw' t); left; reflexivity | exact Q1]).
+          rewrite (IH (fun u Iu => Hw u (or_intror Iu)) l' Qr (fun u Iu => Hw' u (or_intror Iu))). f_equal.
+          destruct s as [[es ls] hs], t as [[et lt] ht]. unfold slot_e, slot_lo, slot_hi in *. cbn [fst snd] in *. subst. reflexivity. }
+        rewrite X in HV. apply (cb_DF (ECompose args') rr Wn); [exact FD | exact HV].
     Qed.
   End Frame.
 
@@ -169,7 +207,7 @@ Section Idem.
   Proof.
     intros RG RD. induction n as [|n IH]; intros x r W K H; simpl in H; [discriminate|].
     destruct (simp1 x) as [x1| |] eqn:E1; try discriminate. cbn [bind] in H.
-    pose proof (simp1_good false IdQ rho0 mu0 iota0 x x1 W E1) as G1.
+    pose proof (simp1_good ac IdQ rho0 mu0 iota0 x x1 W E1) as G1.
     destruct (expr_eqb x1 x) eqn:Q.
     - inversion H; subst r. apply DF_unfold. split; [|exact K]. rewrite E1. f_equal. apply wf_eqb_eq; [apply G1 | exact W | exact Q].
     - destruct (rec_simp x1) as [e2| |] eqn:E2; try discriminate. cbn [bind] in H.
@@ -181,14 +219,14 @@ Section Idem.
   Proof.
     induction fuel as [|f IH]; intros e r W H; [simpl in H; discriminate|].
     simpl in H. apply (visit_DF (simp_loop (simp f) (S f))) with (e := e); [| | |exact W | exact H].
-    - intros x x' Wx Hx. apply (loop_good false IdQ rho0 mu0 iota0 (simp f) (simp_good false IdQ rho0 mu0 iota0 f) (S f)); assumption.
+    - intros x x' Wx Hx. apply (loop_good ac IdQ rho0 mu0 iota0 (simp f) (simp_good ac IdQ rho0 mu0 iota0 f) (S f)); assumption.
     - intros sg w v x' Hx. apply (loop_int _ _ _ _ _ _ Hx).
-    - intros x r0 Wx Kx Hx. apply (loop_DF (simp f) (simp_good false IdQ rho0 mu0 iota0 f) IH (S f) x r0 Wx Kx Hx).
+    - intros x r0 Wx Kx Hx. apply (loop_DF (simp f) (simp_good ac IdQ rho0 mu0 iota0 f) IH (S f) x r0 Wx Kx Hx).
   Qed.
 
   (** idempotence *)
   Theorem simp_idempotent : forall fuel e r, wfq e = true -> simp fuel e = Ok r -> forall f, simp (S f) r = Ok r.
   Proof.
-    intros fuel e r W H f. apply simp_of_normal_form; [apply (simp_good false IdQ rho0 mu0 iota0 fuel e r W H) | apply (simp_result_is_normal_form fuel e r W H)].
+    intros fuel e r W H f. apply simp_of_normal_form; [apply (simp_good ac IdQ rho0 mu0 iota0 fuel e r W H) | apply (simp_result_is_normal_form fuel e r W H)].
   Qed.
 End Idem.
